@@ -370,8 +370,25 @@ pub fn mutate(src: &str, other: &str, t: &mut Tape) -> (String, &'static str) {
     if solid.is_empty() {
         return (src.to_string(), "noop");
     }
-    let kind = t.weighted(&[3, 2, 2, 2, 3, 2, 1]);
+    let kind = t.weighted(&[3, 2, 2, 2, 3, 2, 1, 2]);
     let name = match kind {
+        7 => {
+            // stretch a string literal: lengths around the sizes the analyzer checks (64-byte metadata
+            // values), with a multi-byte character lying across the boundary
+            let strs: Vec<usize> = solid.iter().copied().filter(|i| toks[*i].starts_with('"')).collect();
+            let pad = [60usize, 61, 62, 63, 64, 65, 126, 127, 128, 300][t.pick(10)];
+            let wide = ["é", "あ", "😀", "ß", "a"][t.pick(5)];
+            let tail = t.pick(6);
+            let lit = format!("\"{}{}{}\"", "a".repeat(pad), wide, "b".repeat(tail));
+            if strs.is_empty() {
+                let i = solid[t.pick(solid.len())];
+                toks[i] = lit;
+            } else {
+                let i = strs[t.pick(strs.len())];
+                toks[i] = lit;
+            }
+            "stretch_string"
+        }
         0 => {
             let i = solid[t.pick(solid.len())];
             toks.remove(i);
